@@ -16,7 +16,7 @@ pub open spec fn ops_of(items: Seq<BatchItem>) -> Seq<OpV> { Seq::empty() }
 //@path std::sync::atomic::Ordering => atomic_shim::Ordering
 //@path std::fs::remove_file => fs_remove_file
 //@path crate::journal::manager::EvictionWatermark => EvictionWatermark
-//@world is_deleted.load fs_remove_file journal_writer.len
+//@world is_deleted.load fs_remove_file journal_writer.len self.enqueue journal_manager_lock.enqueue
 
 // Keyspaces = HashMap<KeyspaceKey, Keyspace> (src/db.rs): only `values()` and `len()` are used here; the shim
 // exposes the values in some fixed order
